@@ -166,6 +166,8 @@ class Recorder:
         self.plan = list(plan)          # (act, cls) for successive application call sites
         self.k = 0
         self.render_cls = render_cls    # class the body-rendering site raises, or None
+        self.bad_cls = render_cls or 'AppA'   # class raised when an unserialisable handler body is rendered
+        self.render_logged = False
         self.lazy = lazy                # callable(site) -> (act, cls) used when the plan is exhausted (leg B)
         self.excs = {}                  # id(exception) -> index of the raising call
         self.keep = []
@@ -226,12 +228,20 @@ class Recorder:
 
     def dumps(self, obj):
         """dumps() of the JSON media handler: the body-rendering site."""
-        if isinstance(obj, dict) and set(obj) == {'m'} and self.render_cls:
-            cls, self.render_cls = self.render_cls, None
-            idx = self.log('render', 0)
-            self.calls[idx - 1].update(act='raise', cls=cls)
-            raise self.new_exc(cls, idx)
-        return json.dumps(obj, ensure_ascii=False)
+        if isinstance(obj, dict) and set(obj) == {'bad'}:
+            # what a "setbad" handler left behind: never serialisable.  Only the first failure is a call
+            # site of the model; the framework's second rendering attempt fails silently.
+            if self.render_logged:
+                raise TypeError('still not serialisable')
+            cls = self.render_cls or self.bad_cls
+        elif isinstance(obj, dict) and set(obj) == {'m'} and self.render_cls and not self.render_logged:
+            cls = self.render_cls
+        else:
+            return json.dumps(obj, ensure_ascii=False)
+        self.render_cls, self.render_logged = None, True
+        idx = self.log('render', 0)
+        self.calls[idx - 1].update(act='raise', cls=cls)
+        raise self.new_exc(cls, idx)
 
 
 def _component(rec, idx, shape, asgi, twin):
@@ -333,6 +343,10 @@ def _handler(rec, h, beh, asgi):
         if beh == 'set':
             resp.status = SET_STATUS_BASE + h
             resp.text = 'h%d' % idx
+        elif beh == 'setbad':
+            resp.status = SET_STATUS_BASE + h
+            resp.content_type = 'application/json'
+            resp.media = {'bad': idx}
         elif beh == 'noop':
             pass
         elif beh == 'http':
@@ -380,13 +394,15 @@ def hook_pattern(nb, na, variant):
 
 
 def run_request(cfg, plan, *, asgi=False, render_cls=None, lazy=None, accept=None, variant=0, fields_rng=None,
-                xml_safe=False):
+                xml_safe=False, bad_cls=None):
     """cfg: dict(shape=[[..]..], indep, target, nb, na, reg=[{cls, beh}..] (custom registrations only)).
     Returns (rec, result, app)."""
     import falcon
     import falcon.asgi
     import falcon.media
     rec = Recorder(plan, render_cls, lazy, fields_rng, attr_seed=variant, xml_safe=xml_safe)
+    if bad_cls:
+        rec.bad_cls = bad_cls
     twin = bool(variant & 1)
     comps = [_component(rec, j + 1, set(s), asgi, twin) for j, s in enumerate(cfg['shape'])]
     App = falcon.asgi.App if asgi else falcon.App
@@ -691,7 +707,7 @@ def expected_from_behaviour(b):
         body['id'] = obs.get(body['id'], 0)
     final = {'escaped': b['escaped'], 'status': b['status'], 'body': body,
              'hdrs': sorted(set(obs.get(x, 0) for x in b['hdrs']) - {0}), 'vary': b['vary'],
-             'renderfail': b['renderfail']}
+             'renderfail': b['renderfail'], 'fallback': b['fallback']}
     plan = [(c['act'], c['cls']) for c in b['calls'] if c['site'] in APP_SITES]
     render = [c['cls'] for c in b['calls'] if c['site'] == 'render']
     cfg = {'shape': [sorted(s) for s in b['shape']], 'indep': b['indep'], 'target': b['target'], 'nb': b['nb'],
@@ -736,7 +752,7 @@ def compare(exp_calls, exp_final, got_calls, got):
         return out
     if f['escaped']:
         return out
-    rf = f['renderfail']
+    rf = f['fallback']      # rendering the error handler's response failed too: what is sent then is model detail
     if f['status'] != got['status']:
         out.append(('P4:status', 'status %r, specified %r' % (got['status'], f['status'])))
     elif not rf and f['body'] != got['body']:
@@ -747,7 +763,7 @@ def compare(exp_calls, exp_final, got_calls, got):
         out.append(('P4:vary', 'error rendered without Vary: Accept'))
     else:
         if rf and f['body'] != got['body']:
-            out.append(('D:renderbody', 'body after a render-phase failure %r, model %r' % (got['body'], f['body'])))
+            out.append(('D:renderfallback', 'body after two failed renderings %r, model %r' % (got['body'], f['body'])))
         if f['hdrs'] != got['hdrs']:
             out.append(('D:headers', 'exception headers %r, model %r' % (got['hdrs'], f['hdrs'])))
         if f['vary'] != got['vary']:
@@ -809,7 +825,7 @@ def write_classes(ctx):
 PIPE_ACTIONS = ['Start', 'XReqCall', 'XRsrcCall', 'XBeforeCall', 'XResponder', 'XAfterCall', 'XRespCall', 'RenderCall',
                 'XRenderFail', 'ReqSkip', 'ReqDone', 'Route', 'RsrcSkip', 'RsrcDone', 'BeforeDone', 'NotFound',
                 'AfterDone', 'RespDone', 'HandleCall']
-WRONG = {'mro_reversed': 'MostSpecificWins', 'first_reg_wins': 'LatestRegistrationWins',
+WRONG = {'render_drops_body': 'DefaultRendering', 'mro_reversed': 'MostSpecificWins', 'first_reg_wins': 'LatestRegistrationWins',
          'queue_before_call': 'ResponseOnce', 'resp_forward': 'ResponseBottomUp', 'no_reset': 'StaleBodyDiscarded'}
 
 
@@ -841,6 +857,10 @@ def replay_behaviours(ctx, own, behaviours, both, seen_other, label, rich=False)
             case = {'leg': 'A', 'iface': 'asgi' if asgi else 'wsgi', 'variant': variant, 'cfg': cfg, 'plan': plan,
                     'render': render, 'accept': accept, 'fields_seed': h if rich else None, 'spec_calls': exp_calls,
                     'spec_final': exp_final}
+            if exp_final['renderfail']:
+                ctx.extra['render_failures_replayed'] = ctx.extra.get('render_failures_replayed', 0) + 1
+            if exp_final['fallback']:
+                ctx.extra['render_fallbacks_replayed'] = ctx.extra.get('render_fallbacks_replayed', 0) + 1
             ctx.case(case, nontrivial=(nontrivial_c03(cfg, exp_calls) if own == 'P3' else nontrivial_c04(b)),
                      key=digest([cfg, plan, render, asgi]))
             n += 1
@@ -883,15 +903,17 @@ def random_trace(rng, *, asgi, ncomp, maxhooks, regs, classes, maxfaults=5, rend
         return ('ret', '')
 
     render = rng.choice(classes) if rng.random() < render_p else None
+    bad = rng.choice(classes)
     variant = rng.randrange(64)
     accept = rng.choice(ACCEPTS) if rich else None
     xml = bool(accept and accept.split(';')[0].endswith('xml'))
     rec, res, _ = run_request(cfg, [], asgi=asgi, render_cls=render, lazy=lazy, variant=variant, accept=accept,
-                              fields_rng=rng if rich else None, xml_safe=xml)
+                              fields_rng=rng if rich else None, xml_safe=xml, bad_cls=bad)
     got = project(res)
     trace = dict(cfg, ev=rec.calls, final={k: got[k] for k in ('escaped', 'status', 'body', 'hdrs', 'vary')})
     case = {'leg': 'B', 'iface': 'asgi' if asgi else 'wsgi', 'variant': variant, 'cfg': cfg, 'accept': accept,
-            'plan': [(c['act'], c['cls']) for c in rec.calls if c['site'] in APP_SITES], 'render': render}
+            'plan': [(c['act'], c['cls']) for c in rec.calls if c['site'] in APP_SITES],
+            'render': next((c['cls'] for c in rec.calls if c['site'] == 'render'), None)}
     return trace, case, rec, res, got
 
 
